@@ -182,7 +182,27 @@ var snap0 *slog.VerifSnap
 
 func resetGlobals() { slog.VerifRestore(snap0) }
 
+// resetGlobalsDirty restores every package global but keeps the pools: the
+// pooled print contexts and attribute slices carry whatever the previous case
+// left in them (history independence says that must not matter). Checks
+// alternate between the two resets; a violation that only shows after a
+// particular predecessor is confirmed by history replay (see the driver).
+func resetGlobalsDirty() { slog.VerifRestoreKeepPools(snap0) }
+
+// resetAlt alternates between the clean and the dirty reset by case index.
+func resetAlt(n int) {
+	if n%2 == 1 {
+		resetGlobalsDirty()
+	} else {
+		resetGlobals()
+	}
+}
+
 var stdoutFile, stderrFile string
+
+// caseSeq counts the cases a worker has evaluated; it selects the reset mode (clean / dirty pools) and the
+// flag-setting path of the next case, so that consecutive cases exercise all of them.
+var caseSeq int
 
 func main() {
 	var (
